@@ -1,5 +1,5 @@
 # c06.py — C06: size inference picks the smallest format that holds the values exactly.
-import itertools, math
+import itertools, math, os, sys
 from fractions import Fraction
 import lib, storelib as S, arithlib as A
 from lib import Result, model_call, run_sharded, e_list, e_dy, Reader, outcome
@@ -106,8 +106,8 @@ def run_cases(cases, res):
         elif g == 'n_word':
             w = kw['n_word']; want = (s_eff, w, min(w - sign - ni0, nf0)); fits = (w - sign - ni0 >= nf0)
         elif g == 'n_frac':
-            f_ = kw['n_frac']; fits = f_ >= nf0
-            want = (s_eff, sign + min_int(vals, f_, s_eff) + f_, f_) if fits else None
+            f_ = kw['n_frac']; fits = all((v * Fraction(2) ** f_).denominator == 1 for v in vals)
+            want = (s_eff, sign + max(min_int(vals, f_, s_eff) + f_, 0), f_) if fits else None      # (all-zero values under a negative n_frac need no magnitude bit)
         elif g == 'n_int+n_frac':
             want = (s_eff, kw['n_int'] + kw['n_frac'] + sign, kw['n_frac'])
         else:
@@ -164,6 +164,67 @@ def run_capped(cases, res):
         if x.n_word > 64 or (c.get('n_word') and x.n_word != c['n_word']) or bad or (inexact and not x.status['inaccuracy']) or x.status['overflow'] or x.status['underflow']:
             res.fail(c, 'C06: capped inference exceeds the word limit, or errs by a full LSB (overflow), or is not flagged inexact', expected='word within the limit, every element within 1 LSB, only the inaccuracy flag', got=(x.dtype, bad[:3], {k: v for k, v in x.status.items() if v}))
 
+HIST_SCRIPT = r"""
+import sys, json, warnings
+warnings.filterwarnings('ignore')
+from fractions import Fraction
+import numpy as np
+np.seterr(all='ignore')
+import fxpmath as fx
+out = []
+for call in json.load(sys.stdin):
+    vs = [float(Fraction(t)) for t in call['v']]
+    try:
+        x = fx.Fxp(vs[0] if len(vs) == 1 else vs, **call['kw'])
+        out.append([bool(x.signed), int(x.n_word), int(x.n_frac), [int(t) for t in np.asarray(x.val).reshape(-1).tolist()], sorted(k for k, v in x.status.items() if v)])
+    except Exception as e:
+        out.append(['raised', type(e).__name__, str(e)[:120]])
+print(json.dumps(out))
+"""
+
+def gen_history(rng):
+    """a sequence of size inferences as the FIRST ones of a process: the result of each must not depend on the ones before it"""
+    def call(small):
+        f = rng.choice([0, 1, 3, 5]) if small else rng.choice([0, 2, 7, 12, 16, 20]); j = rng.randint(0, 5 if small else 9)
+        vs = [Fraction(rng.randint(-2 ** (j + f), 2 ** (j + f)) | 1, 2 ** f) for _ in range(rng.choice([1, 1, 3]))]
+        kw = {}
+        sg = rng.choice([None, None, True, False])
+        if sg is False: vs = [abs(v) for v in vs]
+        if sg is not None: kw['signed'] = sg
+        if small: kw['n_word_max'] = rng.choice([8, 10, 12, 16])
+        elif rng.random() < 0.2: kw['n_word_max'] = rng.choice([24, 32, 48])
+        return {'v': [str(v) for v in vs], 'kw': kw}
+    first_small = rng.random() < 0.6
+    return {'history': [call(first_small)] + [call(rng.random() < 0.25) for _ in range(7)]}
+
+def run_history(cases, res):
+    import subprocess, json as _json
+    fx = lib.impl(); import numpy as np
+    for c in cases:
+        env = dict(os.environ); env['PYTHONPATH'] = lib.REPO; env['PYTHONHASHSEED'] = '0'
+        try:
+            pr = subprocess.run([sys.executable, '-B', '-c', HIST_SCRIPT], input=_json.dumps(c['history']), capture_output=True, text=True, env=env, timeout=120)
+            fresh = _json.loads(pr.stdout.strip().splitlines()[-1])
+        except Exception as e:
+            res.fail(c, 'C06: a fresh process running a sequence of size inferences failed (%s)' % lib.exc_name(e), got=str(e)[:200]); continue
+        for i, (call, fr) in enumerate(zip(c['history'], fresh)):
+            vs = [float(Fraction(t)) for t in call['v']]
+            try:
+                x = fx.Fxp(vs[0] if len(vs) == 1 else vs, **call['kw'])
+                here = [bool(x.signed), int(x.n_word), int(x.n_frac), lib.codes_of(x), sorted(k for k, v in x.status.items() if v)]
+            except Exception as e:
+                here = ['raised', lib.exc_name(e), str(e)[:120]]
+            res.count('H:first-inferences-of-a-process', key=repr((c['history'][:i + 1])), nontrivial=True)
+            # the exact expectation for dyadic values the limit can hold: the least fraction length and the least word
+            lim = call['kw'].get('n_word_max', 64); vals = [Fraction(t) for t in call['v']]
+            nf = max(v.denominator.bit_length() - 1 for v in vals); sg = call['kw'].get('signed'); sg = True if sg is None else sg      # (the default is a signed format)
+            codes = [int(v * 2 ** nf) for v in vals]
+            nw = max(max((cd.bit_length() + 1) if cd >= 0 else ((-cd - 1).bit_length() + 1) for cd in codes) if sg else max(cd.bit_length() for cd in codes), 1)
+            want = [sg, nw, nf, codes, []] if nw <= lim and nf <= lim - (1 if sg else 0) else None
+            if fr != here or (want is not None and fr[:1] != ['raised'] and (fr[2] != want[2] or fr[3] != want[3] or fr[4] != [] or fr[1] < want[1])) or (want is not None and fr[:1] == ['raised']):
+                one = {'history': c['history'][:i + 1]}
+                res.fail(one, 'C06: a size inference depends on the inferences the process made before it (call %d of a fresh process)' % (i + 1), expected={'in a warmed-up process': here, 'exact': want}, got=fr); break
+
 def shard(shard, nshards, rng, tier, extra):
     res = Result()
     cases = []
@@ -177,8 +238,14 @@ def shard(shard, nshards, rng, tier, extra):
             v = sg_ * (Fraction(2 ** j) + Fraction(rng.choice([1, 1, -1]), 2 ** f))
             vals = [v] + ([Fraction(rng.randint(-2 ** j, 2 ** j), 4)] if rng.random() < 0.4 else [])
             cases.append({'vals': [str(t) for t in vals], 'signed': rng.choice([True, None]), 'given': 'n_word', 'shape': 'scalar' if len(vals) == 1 else 'array', 'carrier': 'float', 'slack': -rng.randint(2, f - 1)})
+        if rng.random() < 0.04:
+            # only a NEGATIVE n_frac given (values that are multiples of 2^-n_frac): the word is the least one holding the codes
+            j = rng.randint(1, 12); sg_ = rng.choice([True, None, False])
+            vals = [Fraction(rng.randint(0 if sg_ is False else -2 ** rng.randint(1, 20), 2 ** rng.randint(1, 20)) * 2 ** (j + rng.choice([0, 0, 1, 3]))) for _ in range(rng.choice([1, 1, 3]))]
+            cases.append({'vals': [str(t) for t in vals], 'signed': sg_, 'given': 'n_frac', 'n_frac': -j, 'shape': 'scalar' if len(vals) == 1 else 'array', 'carrier': rng.choice(['float', 'int'])})
     run_cases(cases, res)
     capped(rng, (900 if tier == 'quick' else 6000) // nshards, res)
+    run_history([gen_history(rng) for _ in range(2 if tier == 'quick' else 12)], res)
     return res
 
 def run(seed, tier):
@@ -188,4 +255,5 @@ def replay(payload):
     res = Result(); c = payload['case']
     if 'vals' in c: run_cases([c], res)
     elif 'capped' in c: run_capped([c], res)
+    elif 'history' in c: run_history([c], res)
     return {'holds': not res.failures, 'failures': res.failures}
